@@ -641,6 +641,31 @@ class Interp:
             return outs
         if isinstance(test, ast.UnaryOp) and isinstance(test.op, ast.Not):
             return [(ts, not truth) for (ts, truth) in self.branch(test.operand, s)]
+        # <regex>.fullmatch(x) is not None  ==  the match object is truthy
+        if isinstance(test, ast.Compare) and len(test.ops) == 1 and isinstance(test.ops[0], (ast.Is, ast.IsNot)) \
+                and isinstance(test.comparators[0], ast.Constant) and test.comparators[0].value is None \
+                and isinstance(test.left, ast.Call) and isinstance(test.left.func, ast.Attribute) and test.left.func.attr in ("fullmatch", "match", "search"):
+            outs = self.branch(test.left, s)
+            return outs if isinstance(test.ops[0], ast.IsNot) else [(ts, not truth) for (ts, truth) in outs]
+        # a package predicate `def p(a, b): [if c: return K]* return E` called on plain arguments: what its answer tells about the
+        # arguments is what c and E tell, with the parameters replaced by the arguments
+        inl = self._inline_predicate(test, s)
+        if inl is not None:
+            self.eval(test, s)          # the call itself, for its effects
+            guards, final = inl
+            outs, cur = [], [s]
+            for (c, k) in guards:
+                nxt = []
+                for x in cur:
+                    for (ts, truth) in self.branch(c, x):
+                        if truth:
+                            outs.append((ts, bool(k)))
+                        else:
+                            nxt.append(ts)
+                cur = nxt
+            for x in cur:
+                outs += self.branch(final, x)
+            return outs
         # atomic
         v = self.eval(test, s)
         outs = []
@@ -650,6 +675,49 @@ class Interp:
                 outs.append((ts, truth))
         return outs
 
+    def _inline_predicate(self, test, s, _depth=[0]):
+        if not isinstance(test, ast.Call) or test.keywords or _depth[0] > 2:
+            return None
+        if not all(isinstance(a, (ast.Name, ast.Constant)) or (isinstance(a, ast.Attribute) and isinstance(a.value, ast.Name)) for a in test.args):
+            return None
+        try:
+            tg = self.calls.callee(self.cur_func, test)
+        except Exception:
+            return None
+        gs = [t.func for t in tg if t.kind == "func" and t.func is not None]
+        if len(gs) != 1 or len(tg) != 1:
+            return None
+        g = gs[0]
+        if g.cls is not None or g.is_generator or isinstance(g.node, ast.Lambda) or len(g.params) != len(test.args):
+            return None
+        body = [st for st in g.body if not (isinstance(st, ast.Expr) and isinstance(st.value, ast.Constant))]
+        if not body or not isinstance(body[-1], ast.Return) or body[-1].value is None:
+            return None
+        guards = []
+        for st in body[:-1]:
+            if isinstance(st, ast.If) and not st.orelse and len(st.body) == 1 and isinstance(st.body[0], ast.Return) \
+                    and isinstance(st.body[0].value, ast.Constant) and isinstance(st.body[0].value.value, bool):
+                guards.append((st.test, st.body[0].value.value))
+            else:
+                return None
+        binding = dict(zip(g.params, test.args))
+        # every other name the predicate uses must mean the same at the call site (module-level names of the same module)
+        if g.mod is not self.cur_func.mod:
+            return None
+
+        class Sub(ast.NodeTransformer):
+            def visit_Name(self, n):
+                if n.id in binding and isinstance(n.ctx, ast.Load):
+                    return ast.copy_location(copy.deepcopy(binding[n.id]), n)
+                return n
+        import copy
+        local_names = {n.id for st in body for n in ast.walk(st) if isinstance(n, ast.Name) and isinstance(n.ctx, ast.Store)}
+        if local_names:
+            return None
+        out_g = [(ast.fix_missing_locations(Sub().visit(copy.deepcopy(c))), k) for (c, k) in guards]
+        final = ast.fix_missing_locations(Sub().visit(copy.deepcopy(body[-1].value)))
+        return out_g, final
+
     def refine(self, test, v, truth, s):
         """Refine state s under `test` being `truth`; None if infeasible."""
         mt, mf = self.truthiness(v)
@@ -657,6 +725,20 @@ class Interp:
             return None
         if not truth and not mf:
             return None
+        # type(x) is T / is not T / == T: exact class test on a JSON value
+        if isinstance(test, ast.Compare) and len(test.ops) == 1 and isinstance(test.ops[0], (ast.Is, ast.IsNot, ast.Eq, ast.NotEq)):
+            l, r = test.left, test.comparators[0]
+            for a, b in ((l, r), (r, l)):
+                if isinstance(a, ast.Call) and isinstance(a.func, ast.Name) and a.func.id == "type" and len(a.args) == 1 and isinstance(b, ast.Name) \
+                        and b.id in ("bool", "int", "float", "str", "list", "dict"):
+                    cur = self.peek(a.args[0], s)
+                    if cur is not None:
+                        eq = truth == isinstance(test.ops[0], (ast.Is, ast.Eq))
+                        new = cur.only([b.id]) if eq else cur.without([b.id])
+                        if new.empty:
+                            return None
+                        self.poke(a.args[0], new, s)
+                    return s
         # is / is not with constants
         if isinstance(test, ast.Compare) and len(test.ops) == 1:
             op, l, r = test.ops[0], test.left, test.comparators[0]
